@@ -2,8 +2,10 @@
 # usage: confirm_mut.sh <ID> <mN>   — independently confirm a sub-agent's mutation in a scratch worktree
 # and, if confirmed, keep it as /verif/seeded/<ID>-<mN>/ {patch.diff, demo_test.go, meta.json, confirm.log}
 ID=$1; M=$2
-SRC=/tmp/mut/$ID/$M
-WT=/tmp/wt/confirm_$ID$M
+ROOT=${3:-/tmp/mut}     # where the sub-agent left its deliverables
+TAG=${4:-}              # name prefix of the kept variant (e.g. r2 for the second round)
+SRC=$ROOT/$ID/$M
+WT=/tmp/wt/confirm_$ID$TAG$M
 export GOFLAGS=-mod=mod GOPROXY=off
 LOG=$(mktemp)
 exec > >(tee $LOG) 2>&1
@@ -51,7 +53,7 @@ done
 git checkout -- .
 echo "base=$BASE mut=$MUT existing=$EX"
 if [ $BASE -eq 0 ] && [ $MUT -ne 0 ] && [ $EX -eq 0 ]; then
-  D=/verif/seeded/$ID-$M; mkdir -p $D
+  D=/verif/seeded/$ID-$TAG$M; mkdir -p $D
   cp $SRC/patch.diff $D/; cp $DEMO $D/demo_test.go
   python3 - <<PY
 import json
